@@ -36,9 +36,19 @@ def rule_single_reader(ctx, R):
                 elif arg["k"] == "Path":
                     # let src = preprocess(src, ..)...;
                     for l in walk(fn["body"]):
-                        if l["k"] == "Local" and l["pat"]["k"] == "PIdent" and l["pat"]["name"] == arg["path"] and l["init"] is not None:
-                            if any(True for _ in calls(l["init"], "preprocess")):
+                        # let src = preprocess(..)?;  /  let Ok(src) = preprocess(..) else {..};  /  if let Ok(src) = preprocess(..)
+                        init = l.get("init") if l["k"] == "Local" else (l.get("e") if l["k"] == "Let" else None)
+                        if init is None:
+                            continue
+                        pat = l["pat"]
+                        names = [x["name"] for x in walk(pat) if x["k"] == "PIdent"]
+                        plain = pat["k"] == "PIdent" or (pat["k"] == "PTupleStruct" and pat["path"].split("::")[-1] in ("Ok", "Some") and len(pat["elems"]) == 1 and pat["elems"][0]["k"] == "PIdent")
+                        if plain and arg["path"] in names:
+                            i0 = strip(init)
+                            while i0["k"] in ("Try",) or (i0["k"] == "MethodCall" and i0["method"] in ("ok", "unwrap", "expect") ):
+                                i0 = strip(i0["e"] if i0["k"] == "Try" else i0["recv"])
+                            if i0["k"] == "Call" and render(i0["func"]).endswith("preprocess"):
                                 ok = True
-                            det += " = " + render(l["init"])
+                            det += " = " + render(init)
                 ctx.check(R, "%s::%s/parser-input-is-stripped" % (f.rsplit("/", 1)[-1], fn["name"]), ok, "ParseAstParser::parse(%s)" % det[:120], site(f, c))
     ctx.floor(R, "parser entry call sites", n, 2)
